@@ -8,7 +8,7 @@ import subprocess
 from harness import common
 from harness.common import cps
 
-BRIDGE = ('Gemato.Bridge.Hash',)
+BRIDGE = ('Gemato.Bridge.Hash', 'Gemato.Bridge.SrcHash', 'Gemato.Bridge.SrcVerify')
 PROPS = ['Gemato.Props.C17']
 
 MANIFEST_NAMES = ['MD5', 'SHA1', 'SHA256', 'SHA512', 'RMD160', 'WHIRLPOOL', 'BLAKE2B', 'BLAKE2S', 'SHA3_256', 'SHA3_512']
